@@ -269,7 +269,8 @@ def run(ctx: vlib.Ctx):
     rng = ctx.rng
     wd = H.Workdir("c11")
     try:
-        specs = [H.schema_spec(s) for s in H.HAND_SCHEMAS]
+        HAND = H.HAND_SCHEMAS + H.HAND_SCHEMAS_C11
+        specs = [H.schema_spec(s) for s in HAND]
         for i in range(ctx.budget(6, 40)):
             specs.append(H.schema_spec(H.random_schema(rng, i)))
         texts = {s["name"]: wd.add_schema(s) for s in specs}
@@ -367,7 +368,7 @@ def run(ctx: vlib.Ctx):
             api_cases.append((nm, H.to_tuples(cj["tree"]), None, "corpus"))
         for name in [s["name"] for s in specs]:
             sd = sds[name]
-            hand = name in [h["name"] for h in H.HAND_SCHEMAS]
+            hand = name in [h["name"] for h in HAND]
             for fname, fd in sd.fields.items():
                 vals = H.field_value_pool(fd, api=True)
                 if not hand:
@@ -414,7 +415,19 @@ def run(ctx: vlib.Ctx):
         tool_cases = []
         idx = 0
         entries = ["validate", "write"]
-        hand_names = [h["name"] for h in H.HAND_SCHEMAS]
+        hand_names = [h["name"] for h in HAND]
+        # fixed family (every run, every tier): ENUMs holding 2, 3, 4, 5 spellings of one word — each field with values that are a further
+        # case variant (ambiguous: never replaced) through octave_validate(fix) and octave_write(lenient, schema); the same values run
+        # through repair() in the pool of stage B
+        for h in H.HAND_SCHEMAS_C11:
+            sd = sds[h["name"]]
+            for fname, fd in sd.fields.items():
+                for v in [x for x in H.ambiguous_case_values(fd) if H.text_safe(x) and H.is_plain_word(x)][:3]:
+                    text = H.render_doc(H.doc_one_field(sd, fname, v), [("TYPE", "X"), ("VERSION", "1")], H.Spelling(**H.CANONICAL_SPELLING))
+                    for entry in entries:
+                        tool_cases.append((h["name"], texts[h["name"]], text, entry, idx))
+                        idx += 1
+                        ctx.count("tool:fixed:ambiguous-case-enum")
         for (name, tree, meta, kind) in api_cases:
             if not H.tree_text_safe(tree):
                 continue
